@@ -74,9 +74,10 @@ StuckS(s) == \E o \in Ords : s.api.pods[o].present /\ s.api.pods[o].phase = "Fai
 
 \* C02: after the fair tail the system is converged (unless the excluded case holds) and the last reconcile wrote nothing
 B_C02 == /\ (ConvergedS(Final) \/ StuckS(Final))
-         /\ (ConvergedS(Final) => (R.quiet /\ QuiescentS(Final)))
+         /\ (ConvergedS(Final) => R.quiet)
+         /\ StatusTruthS(Final) /\ QuietPodsS(Final)
 \* C12: at the fixed point the counters are an exact census
-B_C12 == CensusS(Final)
+B_C12 == StatusTruthS(Final)
 \* C03 (last clause): no reconcile of the behaviour took away a pod that was desired, live, up to date and correctly cached
 B_C03 == \A k \in 1..Len(Steps) : IsRec(k) => NoCollateralStep(Before(k), After(k))
 \* C08: no reconcile of an unchanged template changed the update revision or added a revision
